@@ -318,9 +318,31 @@ package hrpc
 //@   modifies nothing
 //@   panics never[C01]
 //@   ensures[C01] ownSpecifier(r0, b.region)
+//@ pred hrpc.bytesAre(b, s) = len(b) == strlen(s) && forall(k, 0 <= k && k < len(b), b[k] == s[k])
+// the column list of a request (C05): one column per family of the call's family map - ghost colfam[j] = the family
+// column j was built for, each family once - carrying that family's name and its qualifiers, in order, byte for byte
 //@ func hrpc.familiesToColumn
-//@   trusted "builds the column list of a request from the call's family map; allocates, writes nothing that exists"
-//@   modifies nothing
+//@   modifies X.colfam
+//@   panics never[C05]
+//@   at call make#2 ghost colfam[counter] == family
+//@   ensures[C05] len(r0) == len(families)
+//@   ensures[C05] forall(j, 0 <= j && j < len(r0), r0[j] != nil && haskey(families, ghostat("colfam", j)) && bytesAre(r0[j].Family, ghostat("colfam", j)) && len(r0[j].Qualifier) == len(families[ghostat("colfam", j)]))
+//@   ensures[C05] forall(j, q, 0 <= j && j < len(r0) && 0 <= q && q < len(r0[j].Qualifier), bytesAre(r0[j].Qualifier[q], families[ghostat("colfam", j)][q]))
+//@   ensures[C05] forall(j1, j2, 0 <= j1 && j1 < j2 && j2 < len(r0), ghostat("colfam", j1) != ghostat("colfam", j2))
+//@   loop 1 invariant[C05] counter == nvisited() && len(cols) == len(families)
+//@   loop 1 invariant[C05] forall(j, 0 <= j && j < counter, cols[j] != nil && visited(ghostat("colfam", j)))
+//@   loop 1 invariant[C05] forall(j, 0 <= j && j < counter, bytesAre(cols[j].Family, ghostat("colfam", j)))
+//@   at loopend 1 assert[C05] forall(j, 0 <= j && j < athead(1, counter), cols[j] == athead(1, cols[j]) && sameslice(cols[j].Family, athead(1, cols[j].Family)) && allocated(athead(1, cols[j].Family)))
+//@   at loopend 1 assert[C05] forall(j, k, 0 <= j && j < athead(1, counter) && 0 <= k && k < len(cols[j].Family), cols[j].Family[k] == athead(1, cols[j].Family[k]))
+//@   at loopend 1 assert[C05] bytesAre(cols[athead(1, counter)].Family, family) && ghostat("colfam", athead(1, counter)) == family
+//@   loop 1 invariant[C05] forall(j, 0 <= j && j < counter, len(cols[j].Qualifier) == len(families[ghostat("colfam", j)]))
+//@   loop 1 invariant[C05] forall(j1, j2, 0 <= j1 && j1 < j2 && j2 < counter, ghostat("colfam", j1) != ghostat("colfam", j2))
+//@   loop 2 invariant[C05] len(bytequals) == len(qualifiers) && forall(q, 0 <= q && q < i, bytequals[q] != nil && allocated(bytequals[q]) && bytesAre(bytequals[q], qualifiers[q]))
+//@   loop 1 invariant[C05] forall(j, 0 <= j && j < counter, cols[j].Qualifier != nil)
+//@   loop 1 invariant[C05] forall(j, q, 0 <= j && j < counter && 0 <= q && q < len(cols[j].Qualifier), cols[j].Qualifier[q] != nil && allocated(cols[j].Qualifier[q]))
+//@   loop 1 invariant[C05] forall(j, q, 0 <= j && j < counter && 0 <= q && q < len(cols[j].Qualifier), bytesAre(cols[j].Qualifier[q], families[ghostat("colfam", j)][q]))
+//@   loop 1 invariant[C05] forall(j, 0 <= j && j < counter, allocated(cols[j]))
+//@   loop 1 invariant[C05] forall(j, 0 <= j && j < counter, cols[j].Family != nil && allocated(cols[j].Family) && allocated(cols[j].Qualifier))
 //@ func hrpc.ConsistencyType.toProto
 //@   modifies nothing
 // a Get request names the region its call is bound to and carries the call's own row key
@@ -334,6 +356,15 @@ package hrpc
 //@   ensures[C05] cast(r0, "*pb.GetRequest").Get.TimeRange != nil && (g.fromTimestamp != 0) == (cast(r0, "*pb.GetRequest").Get.TimeRange.From != nil) && (g.fromTimestamp != 0 ==> *cast(r0, "*pb.GetRequest").Get.TimeRange.From == g.fromTimestamp)
 //@   ensures[C05] (g.toTimestamp != 18446744073709551615) == (cast(r0, "*pb.GetRequest").Get.TimeRange.To != nil) && (g.toTimestamp != 18446744073709551615 ==> *cast(r0, "*pb.GetRequest").Get.TimeRange.To == g.toTimestamp)
 //@   ensures[C05] (g.storeOffset != 0) == (cast(r0, "*pb.GetRequest").Get.StoreOffset != nil) && (g.storeOffset != 0 ==> *cast(r0, "*pb.GetRequest").Get.StoreOffset == g.storeOffset)
+//@   ensures[C05] (g.storeLimit != DefaultMaxResultsPerColumnFamily) == (cast(r0, "*pb.GetRequest").Get.StoreLimit != nil) && (g.storeLimit != DefaultMaxResultsPerColumnFamily ==> *cast(r0, "*pb.GetRequest").Get.StoreLimit == g.storeLimit)
+//@   ensures[C05] g.existsOnly == (cast(r0, "*pb.GetRequest").Get.ExistenceOnly != nil) && (g.existsOnly ==> *cast(r0, "*pb.GetRequest").Get.ExistenceOnly)
+//@   ensures[C05] (g.cacheBlocks != DefaultCacheBlocks) == (cast(r0, "*pb.GetRequest").Get.CacheBlocks != nil) && (g.cacheBlocks != DefaultCacheBlocks ==> *cast(r0, "*pb.GetRequest").Get.CacheBlocks == g.cacheBlocks)
+//@   ensures[C05] cast(r0, "*pb.GetRequest").Get.Filter == g.filter
+// the columns asked for are the call's families with their qualifiers (familiesToColumn; ghost colfam[j] = family of column j)
+//@   ensures[C05] len(cast(r0, "*pb.GetRequest").Get.Column) == len(g.families)
+//@   ensures[C05] forall(j, 0 <= j && j < len(cast(r0, "*pb.GetRequest").Get.Column), haskey(g.families, ghostat("colfam", j)) && bytesAre(cast(r0, "*pb.GetRequest").Get.Column[j].Family, ghostat("colfam", j)) && len(cast(r0, "*pb.GetRequest").Get.Column[j].Qualifier) == len(g.families[ghostat("colfam", j)]))
+//@   ensures[C05] forall(j, q, 0 <= j && j < len(cast(r0, "*pb.GetRequest").Get.Column) && 0 <= q && q < len(cast(r0, "*pb.GetRequest").Get.Column[j].Qualifier), bytesAre(cast(r0, "*pb.GetRequest").Get.Column[j].Qualifier[q], g.families[ghostat("colfam", j)][q]))
+//@   ensures[C05] forall(j1, j2, 0 <= j1 && j1 < j2 && j2 < len(cast(r0, "*pb.GetRequest").Get.Column), ghostat("colfam", j1) != ghostat("colfam", j2))
 // a mutation request names the region its call is bound to and carries the call's own row key
 //@ func hrpc.(*Mutate).toProto
 //@   requires m.region != nil && RegionSpecifierRegionName != nil && *RegionSpecifierRegionName == 1
@@ -364,4 +395,14 @@ package hrpc
 //@   ensures[C05] cast(r0, "*pb.ScanRequest").NumberOfRows != nil && *cast(r0, "*pb.ScanRequest").NumberOfRows == s.numberOfRows && cast(r0, "*pb.ScanRequest").CloseScanner != nil && *cast(r0, "*pb.ScanRequest").CloseScanner == s.closeScanner
 //@   ensures[C05] s.scannerID != 18446744073709551615 ==> cast(r0, "*pb.ScanRequest").Scan == nil && cast(r0, "*pb.ScanRequest").ScannerId != nil && *cast(r0, "*pb.ScanRequest").ScannerId == s.scannerID
 //@   ensures[C05] s.scannerID == 18446744073709551615 ==> cast(r0, "*pb.ScanRequest").ScannerId == nil && cast(r0, "*pb.ScanRequest").Scan != nil && sameslice(cast(r0, "*pb.ScanRequest").Scan.StartRow, s.startRow) && sameslice(cast(r0, "*pb.ScanRequest").Scan.StopRow, s.stopRow)
+// the scan description carries the scan's own time range, version and per-family limits, filter, and the columns asked for
+//@   ensures[C05] s.scannerID == 18446744073709551615 ==> cast(r0, "*pb.ScanRequest").Scan.TimeRange != nil && (s.fromTimestamp != 0) == (cast(r0, "*pb.ScanRequest").Scan.TimeRange.From != nil) && (s.fromTimestamp != 0 ==> *cast(r0, "*pb.ScanRequest").Scan.TimeRange.From == s.fromTimestamp)
+//@   ensures[C05] s.scannerID == 18446744073709551615 ==> (s.toTimestamp != 18446744073709551615) == (cast(r0, "*pb.ScanRequest").Scan.TimeRange.To != nil) && (s.toTimestamp != 18446744073709551615 ==> *cast(r0, "*pb.ScanRequest").Scan.TimeRange.To == s.toTimestamp)
+//@   ensures[C05] s.scannerID == 18446744073709551615 ==> (s.maxVersions != DefaultMaxVersions) == (cast(r0, "*pb.ScanRequest").Scan.MaxVersions != nil) && (s.maxVersions != DefaultMaxVersions ==> *cast(r0, "*pb.ScanRequest").Scan.MaxVersions == s.maxVersions)
+//@   ensures[C05] s.scannerID == 18446744073709551615 ==> (s.storeLimit != DefaultMaxResultsPerColumnFamily) == (cast(r0, "*pb.ScanRequest").Scan.StoreLimit != nil) && (s.storeLimit != DefaultMaxResultsPerColumnFamily ==> *cast(r0, "*pb.ScanRequest").Scan.StoreLimit == s.storeLimit)
+//@   ensures[C05] s.scannerID == 18446744073709551615 ==> (s.storeOffset != 0) == (cast(r0, "*pb.ScanRequest").Scan.StoreOffset != nil) && (s.storeOffset != 0 ==> *cast(r0, "*pb.ScanRequest").Scan.StoreOffset == s.storeOffset)
+//@   ensures[C05] s.scannerID == 18446744073709551615 ==> cast(r0, "*pb.ScanRequest").Scan.Filter == s.filter && cast(r0, "*pb.ScanRequest").Scan.MaxResultSize != nil && *cast(r0, "*pb.ScanRequest").Scan.MaxResultSize == s.maxResultSize
+//@   ensures[C05] s.scannerID == 18446744073709551615 ==> len(cast(r0, "*pb.ScanRequest").Scan.Column) == len(s.families) && forall(j, 0 <= j && j < len(cast(r0, "*pb.ScanRequest").Scan.Column), haskey(s.families, ghostat("colfam", j)) && bytesAre(cast(r0, "*pb.ScanRequest").Scan.Column[j].Family, ghostat("colfam", j)) && len(cast(r0, "*pb.ScanRequest").Scan.Column[j].Qualifier) == len(s.families[ghostat("colfam", j)]))
+//@   ensures[C05] s.scannerID == 18446744073709551615 ==> forall(j, q, 0 <= j && j < len(cast(r0, "*pb.ScanRequest").Scan.Column) && 0 <= q && q < len(cast(r0, "*pb.ScanRequest").Scan.Column[j].Qualifier), bytesAre(cast(r0, "*pb.ScanRequest").Scan.Column[j].Qualifier[q], s.families[ghostat("colfam", j)][q]))
+//@   ensures[C05] s.scannerID == 18446744073709551615 ==> forall(j1, j2, 0 <= j1 && j1 < j2 && j2 < len(cast(r0, "*pb.ScanRequest").Scan.Column), ghostat("colfam", j1) != ghostat("colfam", j2))
 //@   ensures[C05] s.scannerID == 18446744073709551615 ==> (s.reversed == (cast(r0, "*pb.ScanRequest").Scan.Reversed != nil)) && (s.reversed ==> *cast(r0, "*pb.ScanRequest").Scan.Reversed)
